@@ -25,7 +25,7 @@ FLAG_CONSTS = ["True", "False", "0", "1", "()", "'x'", "None"]
 BASE_PROFILE: Dict[str, Any] = dict(
     n_stmts=(1, 8), p_more=0.72,
     w_call=10, w_op=2, w_uop=0.6, w_logic=1, w_nested=2,
-    max_depth=2, p_flag=0.28, p_flag_const=0.25, p_flag_sibling=0.4, p_kwarg=0.25, p_dep=0.78, p_index=0.5, p_unpack=0.4,
+    max_depth=2, p_flag=0.28, p_flag_const=0.25, p_flag_sibling=0.6, p_kwarg=0.25, p_dep=0.78, p_index=0.5, p_unpack=0.4,
     p_reuse=0.3, p_debug=0.0, p_setup=0.0, p_tag=0.0, p_fn_unpack=0.1,
     resources=[("thread", 5), ("async_thread", 2), ("main_thread", 2)], p_seq=0.18, prio=(-2, 4),
     p_prio=0.6, max_args=3, n_params=(0, 3), p_default=0.45,
@@ -49,7 +49,7 @@ def profile(**over: Any) -> Dict[str, Any]:
 SCHED = profile(w_op=0, w_uop=0, w_logic=0, w_nested=0, n_stmts=(2, 10), p_more=0.8, p_kwarg=0.15,
                 ret_types=[("int", 6), ("bool", 2)], p_unpack=0, p_fn_unpack=0, n_params=(0, 2),
                 p_flag=0.15, ret_shapes=[("tuple", 1)], all_return=True, p_ret_const=0, p_dep=0.85,
-                shape_bias=[("uniform", 3), ("recent", 2), ("early", 1), ("wide", 1), ("join", 2)])
+                shape_bias=[("uniform", 3), ("recent", 2), ("early", 1), ("wide", 1), ("join", 2), ("caterpillar", 1)])
 # flat graph programs for selection / debug / setup / cache / compose
 GRAPH = profile(w_op=0, w_uop=0, w_logic=0, w_nested=0, n_stmts=(2, 11), p_more=0.82, p_kwarg=0.2,
                 ret_types=[("int", 7), ("none", 1)], p_unpack=0, p_fn_unpack=0, n_params=(0, 2), p_flag=0.0,
@@ -314,6 +314,19 @@ class ProgramGen:
             cands = cands[:2]
         nargs = d.int(0, p["max_args"])
         args = [self.arg_expr(cands) for _ in range(nargs)]
+        if self.bias == "caterpillar" and not f["setup"]:
+            # a spine with one leaf per spine node: every level of the graph is narrow, yet many leaves of different depths can
+            # be running at the same time (the widest level under-estimates the possible parallelism)
+            own = [v for v in cands if not v.param]
+            spine = st.get("spine")
+            sv = next((v for v in own if v.name == spine), None) if spine else None
+            if sv is not None:
+                args = [["v", sv.name, []]]
+            elif own:
+                args = [["v", own[-1].name, []]]
+            # strictly alternating: spine node, its leaf, next spine node, ... (a few double leaves)
+            st["spine_next"] = sv is None or st.get("last_was_leaf", False) or d.bool(0.2)
+            st["last_was_leaf"] = not st["spine_next"]
         if self.bias == "join" and not f["setup"]:
             # independent nodes followed by a node that joins the two most recent results: siblings that run (and finish)
             # together and a successor all of whose remaining parents may be harvested by one wait
@@ -356,6 +369,8 @@ class ProgramGen:
             vars_.append(_Var(outs[0], f["ret"], nullable=nullable or f["ret"] == "none", debug=f["debug"], setup=f["setup"], stmt=idx))
         st["stmts"].append(dict(k="call", fn=fname, args=args, kwargs=kwargs, flag=flag, tag=tag,
                                 unpack=unpack, out=outs))
+        if st.pop("spine_next", False) and not unpack:
+            st["spine"] = outs[0]
         st["has_setup"] = st["has_setup"] or f["setup"]
         st["has_debug"] = st["has_debug"] or f["debug"]
 
